@@ -38,7 +38,7 @@ CASE_TIMEOUT = {'quick': 120, 'thorough': 300}
 
 
 # appended to RULE in the evidence (vlib/runner.py)
-RULE_ADDENDUM = 'Added in round 5: 20 % of the plain expressions are extended by a throw-away larger expression (foreign or model variable) before they are registered.'
+RULE_ADDENDUM = 'Added in round 5: 20 % of the plain expressions are extended by a throw-away larger expression (foreign or model variable) before they are registered. Round 7: 12 % of the plain constraints are constant-free (products of variables and parameters, possibly under exp / sin / cos).'
 
 def n_cases(tier):
     return 640 if tier == 'quick' else 50000
